@@ -176,6 +176,9 @@ class Flow:
                 out = [(("variant", p, vt.get(v, "#%d" % v)), False) for v in listed]
                 if len(rest) == 1:
                     out.append((("variant", p, rest[0]), True))
+                if vt and not rest:
+                    # every variant of the enum has its own edge: the `otherwise` edge (a wildcard arm kept for nested patterns) cannot be taken
+                    out.append((("eq", ("const", "i32", 0), ("const", "i32", 1)), True))
         else:
             if k < len(t.targets):
                 v = t.targets[k][0]
